@@ -19,8 +19,10 @@ AUDIT_IMPORTS = AUDIT_IMPORTS + ['Flowdyn.Props.C10d']
 THEOREMS = THEOREMS + core.theorems_in(['C10d.lean'], 'Flowdyn.C10d')
 AUDIT_IMPORTS = AUDIT_IMPORTS + ['Flowdyn.Props.C10e']
 THEOREMS = THEOREMS + core.theorems_in(['C10e.lean'], 'Flowdyn.C10e')
+AUDIT_IMPORTS = AUDIT_IMPORTS + ['Flowdyn.Props.C10f']
+THEOREMS = THEOREMS + core.theorems_in(['C10f.lean'], 'Flowdyn.C10f')
 PARTIAL = {"CFL => wave-speed condition (Euler)": "for Euler HLLE the one-step theorems assume the face condition dt/vol_i * (sR(face i) - sL(face i+1)) <= 1 on the code's own wave speeds; that CFL <= 1/2 on the cell speeds |u|+c implies it is NOT true in general (C10b exhibits cell speeds 7 with a face speed above 8); for shallow water the cell condition CFL <= 1/2 IS sufficient and proved (sw_uniform_fe_positive with the code's swDt); the sweep explores the Euler clause at CFL <= 1/2",
-           "HLLC": "one forward-Euler step of one cell with the model's eHllc keeps density and pressure positive (C10e.hllc_step_adm) when the code's speeds are ordered sL < sM < sR at the two faces of the cell and nu (max(sR(left face),0) - min(sL(right face),0)) <= 1: the HLLC flux is written as a three-wave flux (hllcCore_left_form/right_form), the update is a convex combination of seven states (hllc_update_convex), the star states are admissible exactly when (s-u)(s-sM) > 0 and the star internal energy is positive (starK_adm_iff), which Einfeldt's speeds guarantee through Batten's condition; NOT proved: the lift to the pipeline, walls and SSP steps (same one-liners as for HLLE once written), and the case sM outside [sL,sR], which the code's speeds allow for gamma <= 1.1 at pressure ratios ~1e3 (exact criteria sL_lt_contact_iff / contact_lt_sR_iff) - there a dedicated search of 3e7 one-step and 1e6 forty-step configurations on the implementation found no loss of positivity (worst one-step ratio 0.50), as the sweep",
+           "HLLC": "one forward-Euler step of one cell with the model's eHllc keeps density and pressure positive (C10e.hllc_step_adm) when the code's speeds are ordered sL < sM < sR at the two faces of the cell and nu (max(sR(left face),0) - min(sL(right face),0)) <= 1: the HLLC flux is written as a three-wave flux (hllcCore_left_form/right_form), the update is a convex combination of seven states (hllc_update_convex), the star states are admissible exactly when (s-u)(s-sM) > 0 and the star internal energy is positive (starK_adm_iff), which Einfeldt's speeds guarantee through Batten's condition; lifted to the pipeline (C10f): forward Euler, explicit, rk2_heun and rk3ssp steps on any periodic mesh, with open ends, walls or any pair of the ten named boundary kernels (hllc_fe_positive, hllc_*_positive, *_open, *_walls, *_named'), with the ordering made checkable by an exact pressure-jump criterion (hllcOrdered_iff) and a sufficient one (pR < (1+gamma) pL, pL < (1+gamma) pR with non-receding supersonic streams); NOT proved: the case sM outside [sL,sR], which the code's speeds allow for gamma <= 1.1 at pressure ratios ~1e3 (exact criteria sL_lt_contact_iff / contact_lt_sR_iff) - there a dedicated search of 3e7 one-step and 1e6 forty-step configurations on the implementation found no loss of positivity (worst one-step ratio 0.50), as the sweep",
            "stages": "the SSP theorems (rk2_heun, rk3ssp) assume the step condition at every stage state: the code computes dt once per step from the initial state",
            "boundaries": "pipeline-level theorems hold for periodic meshes (C10b) and for open ends with any boundary kernels that preserve admissibility - slip walls, dirichlet with an admissible state, outsup, outsub p>0, inf (C10c.*_open, *_walls, *_named; wall-face speeds bounded by the cell speed for gamma <= 3); ALL ten named Euler kernels are proved admissibility-preserving with exact (necessary and sufficient) parameter conditions (C10d: insub, insup, insub_cbc need positive totals, the outlets outsub_qtot / outsub_rh / outsub_nrcbc a positive pressure; eulerBC_padm', eulerBC_padm_iff) and the pipeline theorems are restated for any pair of them (hlle_*_positive_named'); for insub_cbc the statement is about the real-number model: its unclamped discriminant can be negative for an admissible interior state (insubCbc_discr_neg_example), where binary64 returns NaN - the regime in which root and quotient are genuine is insubCbc_regular"}
 LEVEL_NOTE = "admissible cone convexity, HLL star-state lemma, the exact convex-combination form of the first-order update (C10b.hll_update_convex), the model's eHlle/swHll/swRusanov proved to be HLL fluxes with the code's speeds, hence positivity of one forward-Euler step on the periodic pipeline model on any mesh and of the rk2_heun/rk3ssp steps: see PARTIAL for the hypotheses"
